@@ -364,6 +364,9 @@ func (e *Enc) eval(sx *Sx, env *evalEnv) tv {
 			return tv{Val{app(">", e.rootOf(x.v.T), a0), "Bool"}, nil}
 		}
 		return tv{Val{"true", "Bool"}, nil}
+	case "anow":
+		// the allocation counter of the state the clause is evaluated in (an object allocated so far has rootid <= it)
+		return tv{Val{e.allocCounter(env.heap), "Int"}, nil}
 	case "allocated":
 		x := e.eval(args[0], env)
 		return tv{Val{e.refOld(x.v, env.heap), "Bool"}, nil}
